@@ -6,11 +6,14 @@ import (
 	"fmt"
 	"os"
 	"path/filepath"
+	"regexp"
 	"runtime"
 	"sort"
 	"strconv"
 	"strings"
 	"time"
+
+	"golang.org/x/tools/go/ssa"
 )
 
 type OblResult struct {
@@ -153,6 +156,11 @@ func runCheck(o checkOpts) checkResult {
 			engines[t.tags] = te
 		}
 		fx, err := te.verifyFunc(t.pkg, t.key)
+		if sc0, isStale := err.(*staleContractErr); isStale && err != nil {
+			if fx2 := recoverRename(te, t.pkg, t.key, sc0, o); fx2 != nil {
+				fx, err = fx2, nil
+			}
+		}
 		if err != nil {
 			if sc, ok := err.(*staleContractErr); ok {
 				name := strings.TrimPrefix(t.pkg[len(modPath):]+"."+t.key+"/contract[fits]", "/")
@@ -310,4 +318,137 @@ func writeJSON(path string, v any) error {
 	}
 	os.MkdirAll(filepath.Dir(path), 0o755)
 	return os.WriteFile(path, append(b, '\n'), 0o644)
+}
+
+// recoverRename: a loop invariant or ghost block names a local variable the function no longer has.  Invariants and
+// ghost code are auxiliary: any choice that makes every obligation of the function discharge is a valid proof.  So the
+// locals of the function that the contract does not mention are tried in place of the missing name; a candidate is
+// accepted only if the whole function then verifies.  (Postconditions never mention locals, they are not affected.)
+func recoverRename(e *Engine, pkg, key string, sc *staleContractErr, o checkOpts) *FuncCtx {
+	full := pkg + ":" + key
+	fn := e.funcs[full]
+	pc := e.contracts[pkg]
+	if fn == nil || pc == nil || pc.Funcs[key] == nil {
+		return nil
+	}
+	if e.renameTry == nil {
+		e.renameTry = map[string]map[string]string{}
+	}
+	text := contractText(pc.Funcs[key])
+	var locals []string
+	seen := map[string]bool{}
+	for _, b := range fn.Blocks {
+		for _, in := range b.Instrs {
+			if a, ok := in.(*ssa.Alloc); ok && a.Comment != "" && !strings.ContainsAny(a.Comment, "$ ") && !seen[a.Comment] {
+				seen[a.Comment] = true
+				if !regexp.MustCompile(`\b` + regexp.QuoteMeta(a.Comment) + `\b`).MatchString(text) {
+					locals = append(locals, a.Comment)
+				}
+			}
+		}
+	}
+	sort.Strings(locals)
+	if os.Getenv("GOVC_DEBUG_RENAME") != "" {
+		fmt.Fprintln(os.Stderr, "rename: locals not named by the contract:", locals, "error:", sc.msg)
+	}
+	budget := 120 // generated candidates
+	var search func(cur map[string]string, sc *staleContractErr, depth int) *FuncCtx
+	search = func(cur map[string]string, sc *staleContractErr, depth int) *FuncCtx {
+		m := regexp.MustCompile(`unknown identifier "([^"]+)"`).FindStringSubmatch(sc.msg)
+		if m == nil || depth > 3 {
+			return nil
+		}
+		missing := m[1]
+		used := map[string]bool{}
+		for _, v := range cur {
+			used[v] = true
+		}
+		for _, c := range locals {
+			if used[c] || budget <= 0 {
+				continue
+			}
+			budget--
+			try := map[string]string{missing: c}
+			for k, v := range cur {
+				try[k] = v
+			}
+			e.renameTry[full] = try
+			fx, err := e.verifyFunc(pkg, key)
+			if os.Getenv("GOVC_DEBUG_RENAME") != "" {
+				fmt.Fprintln(os.Stderr, "rename: try", try, "->", err)
+			}
+			if err != nil {
+				if sc2, ok := err.(*staleContractErr); ok && !strings.Contains(sc2.msg, `"`+missing+`"`) && strings.Contains(sc2.msg, "unknown identifier") {
+					outOfScope := false
+					for _, v := range try {
+						if strings.Contains(sc2.msg, `"`+v+`"`) {
+							outOfScope = true // the candidate itself does not exist at the program point of the clause
+						}
+					}
+					if !outOfScope {
+						if fx2 := search(try, sc2, depth+1); fx2 != nil {
+							return fx2
+						}
+					}
+				}
+				continue
+			}
+			dir, _ := os.MkdirTemp("", "govc-rename-")
+			sv := &Solver{dir: dir, workers: runtime.NumCPU(), quickT: 4, longT: 20, instT: 20, seed: 1, cache: map[string]*solveResult{}, perSolver: map[string]*solverStat{}}
+			sv.solveAll(fx.queries)
+			os.RemoveAll(dir)
+			ok := true
+			for _, q := range fx.queries {
+				if !q.Canary && q.Status != "unsat" {
+					ok = false
+				}
+			}
+			if ok {
+				fx.trusted[fmt.Sprintf("contract of %s names local(s) %v; the function has %v instead (accepted because every obligation discharges with the substitution)", key, keysOf(try), valuesOf(try))] = true
+				return fx
+			}
+		}
+		return nil
+	}
+	if fx := search(map[string]string{}, sc, 1); fx != nil {
+		return fx
+	}
+	delete(e.renameTry, full)
+	return nil
+}
+
+func contractText(fc *FuncContract) string {
+	var sb strings.Builder
+	for _, c := range fc.Requires {
+		sb.WriteString(c.Src + "\n")
+	}
+	for _, c := range fc.Ensures {
+		sb.WriteString(c.Src + "\n")
+	}
+	for _, l := range fc.Loops {
+		for _, c := range l.Invs {
+			sb.WriteString(c.Src + "\n")
+		}
+	}
+	for _, g := range fc.Ghost {
+		sb.WriteString(g.Src + "\n")
+	}
+	return sb.String()
+}
+
+func keysOf(m map[string]string) []string {
+	var out []string
+	for k := range m {
+		out = append(out, k)
+	}
+	sort.Strings(out)
+	return out
+}
+
+func valuesOf(m map[string]string) []string {
+	var out []string
+	for _, k := range keysOf(m) {
+		out = append(out, m[k])
+	}
+	return out
 }
